@@ -61,7 +61,7 @@ import warnings
 from .. import common
 
 TIMEOUT = 60.0          # per pipeline, generous: a timeout is reported as harness error
-STUCK_WAIT = 10.0       # fault cases: bounded wait for an emit of the Dask pipeline; exceeding it is the failure
+STUCK_WAIT = 20.0       # fault cases: bounded wait for an emit of the Dask pipeline; exceeding it is the failure
 SIG_REORDER = "gather:reorder:concurrent-updates"
 SIG_STUCK = "dask:stuck-after-downstream-failure"
 SIG_ACC_POISON = "dask:accumulate:failed-task-poisons-state"
